@@ -1,6 +1,7 @@
 (* C03 — request metadata, response headers and trailers arrive complete and unaltered. *)
 From Coq Require Import ZArith List Bool.
 From Grpchan Require Import model.StreamSeq proofs.StreamSeq model.Ctx proofs.C10.
+From Grpchan Require model.InprocStream proofs.StreamInv proofs.StreamOrder.
 Import ListNotations.
 Open Scope Z_scope.
 
@@ -27,3 +28,19 @@ Proof. exact send_marks_headers_sent. Qed.
 (* in-process request metadata: the handler's incoming metadata is exactly the caller's outgoing metadata (C10) *)
 Theorem C03_request_metadata_inproc : forall m c, lookup KInMD (server_ctx m c) = option_map VMD (out_md c).
 Proof. exact incoming_is_callers_outgoing. Qed.
+
+(* The COMPLETE in-process stream, every interleaving (proofs/StreamOrder.v): while the caller's context
+   is live, the frames the server side has put on the response channel are at most one header frame,
+   then messages only, then at most one trailer frame, then at most one error frame -- so headers
+   precede the first message and trailers follow the last one whatever the handler and the three
+   client goroutines do, and whenever they do it. *)
+Theorem C03_full_stream_frame_order : forall rs s hp hq,
+  StreamOrder.hreach rs s hp hq -> InprocStream.cctx s = 0 ->
+  exists h ds t e, hp = StreamOrder.shape h ds t e.
+Proof. exact StreamOrder.frames_in_order. Qed.
+Print Assumptions C03_full_stream_frame_order.
+
+Theorem C03_full_stream_frame_order_nonvacuous :
+  exists s hq, StreamOrder.hreach true s (StreamOrder.shape (Some [7]) [9] (Some [8]) (Some 5)) hq /\
+               InprocStream.cctx s = 0 /\ StreamOrder.datas hq = [9].
+Proof. exact StreamOrder.full_shape_reachable. Qed.
